@@ -102,3 +102,84 @@ func Harness_C06_RemoveRealm() {
 	vAssert("attach-to-removed-realm-refused", err != nil)
 	vCover("remove-checked")
 }
+
+// Close racing with traffic: every interleaving with at most `budget`
+// preemptions of Close() against one client request and one disconnect.
+func vC06Race(budget int) {
+	r := vNewRouter(&Config{RealmConfigs: []*RealmConfig{{URI: "realm1", AnonymousAuth: true}}})
+	a := vAttach(r, "realm1", nil, 64)
+	b := vAttach(r, "realm1", nil, 64)
+	vAssert("attached", a != nil && b != nil)
+	b.send(&wamp.Register{Request: 1, Procedure: "b.proc"})
+	b.send(&wamp.Subscribe{Request: 2, Topic: "t"})
+	b.drain()
+	kind := vChoice("traffic", 4)
+	vSetPreempt(budget)
+	done := make(chan struct{})
+	go func() {
+		defer close(done)
+		var m wamp.Message
+		switch kind {
+		case 0:
+			m = &wamp.Publish{Request: 5, Topic: "t", Options: wamp.Dict{"acknowledge": true}}
+		case 1:
+			m = &wamp.Call{Request: 5, Procedure: "b.proc", Options: wamp.Dict{"timeout": int64(100)}}
+		case 2:
+			m = &wamp.Subscribe{Request: 5, Topic: "u"}
+		case 3:
+			m = &wamp.Goodbye{Reason: wamp.CloseRealm, Details: wamp.Dict{}}
+		}
+		// the handler may already be gone: do not wait forever
+		select {
+		case a.peer.Send() <- m:
+		case <-r.stopped:
+		}
+	}()
+	r.Close()
+	vSetPreempt(0)
+	<-done
+	for vFireTimer() {
+	}
+	vQuiesce()
+	vAssert("client-b-told-shutdown", vGotShutdownOrClosed(b))
+	vCover("race-done")
+}
+
+func Harness_C06_CloseRace_1() { vC06Race(1) }
+func Harness_C06_CloseRace_2() { vC06Race(2) }
+
+func Harness_C06_CloseRace_3() { vC06Race(3) }
+
+// A publication that is in flight inside a handler while the realm shuts down.
+// The window is held open deterministically with a PublishFilterFactory (a
+// public configuration hook that runs in the publisher's handler goroutine).
+func Harness_C06_CloseDuringPublish() {
+	entered := make(chan struct{})
+	release := make(chan struct{})
+	ff := func(msg *wamp.Publish) PublishFilter {
+		if msg.Topic == "gate.topic" {
+			close(entered)
+			<-release
+		}
+		return nil
+	}
+	r := vNewRouter(&Config{RealmConfigs: []*RealmConfig{{URI: "realm1", AnonymousAuth: true, PublishFilterFactory: ff}}})
+	a := vAttach(r, "realm1", nil, 64)
+	b := vAttach(r, "realm1", nil, 64)
+	vAssert("attached", a != nil && b != nil)
+	b.send(&wamp.Subscribe{Request: 1, Topic: "gate.topic"})
+	b.drain()
+	a.send(&wamp.Publish{Request: 2, Topic: "gate.topic", Arguments: wamp.List{"x"}})
+	<-entered // a's handler is now inside broker.publish
+	closed := make(chan struct{})
+	go func() {
+		r.Close()
+		close(closed)
+	}()
+	// let the shutdown proceed as far as it can: b's handler exits and closes b's peer
+	vQuiesce()
+	close(release) // the publication continues
+	<-closed
+	vQuiesce()
+	vCover("close-during-publish-done")
+}
